@@ -354,17 +354,23 @@ def check_retry_timing(obs, ro, prog):
     out = []
     run = ro.tag
     pending = {}
+    last_kwargs = {}
     n_checked = 0
     for r in obs.trace:
         if r['run'] != run:
             continue
         k = r['k']
+        if k == 'body_start':
+            cur = kkey(r['kwargs'])
         if k == 'body_raise':
-            pending[r['node']] = r
+            pending[r['node']] = dict(r, kwargs_key=last_kwargs.get(r['node']))
         elif k == 'cb_node_start':
             pending.pop(r['node'], None)
         elif k == 'body_start':
             pr = pending.pop(r['node'], None)
+            if pr is not None and pr.get('kwargs_key') is not None and pr['kwargs_key'] != kkey(r['kwargs']):
+                out.append(F(['C12'], 'retry_with_different_arguments', node=r['node'],
+                             first=pr['kwargs_key'][:200], retry=kkey(r['kwargs'])[:200]))
             if pr is not None:
                 node = prog['nodes'][r['node']]
                 delay = (node.get('retry') or {}).get('delay') or 0
@@ -372,6 +378,7 @@ def check_retry_timing(obs, ro, prog):
                 if r['vt'] - pr['vt'] < delay - 1e-9:
                     out.append(F(['C12'], 'retry_delay_too_short', node=r['node'], waited=r['vt'] - pr['vt'],
                                  delay=delay))
+            last_kwargs[r['node']] = cur
     return out, n_checked
 
 
@@ -545,7 +552,8 @@ def check_saves(obs, ro, ref, prog):
             out.append(F(['C19'], 'write_once_store_failed_run', err=_short(ro.error)))
         if ro.outcome == 'value':
             executed = {r['node'] for r in obs.trace if r['k'] == 'body_start' and r['run'] == run}
-            saved_nodes = {r['node'] for r in saves if r['engine_id'].startswith('processor__')}
+            saved_nodes = {r['node'] for r in obs.trace if r['k'] == 'save_done' and r['run'] == run
+                           and r['engine_id'].startswith('processor__')}
             for n in executed:
                 if n in ref.must_nodes and n not in saved_nodes:
                     out.append(F(['C19'], 'executed_node_not_saved', node=n))
